@@ -1,6 +1,7 @@
 package main
 
 import (
+	"bytes"
 	"encoding/hex"
 	"encoding/json"
 	"fmt"
@@ -319,13 +320,28 @@ func c05Exec(raw json.RawMessage) Result {
 	unmarshal(raw, &op)
 	allFrontEnds()
 	w := newWorld(op.Atomics, nil)
-	core := w.build(&op.Tree)
+	// a level filter at the root of an odd-numbered tree is installed the way applications do it — the option
+	// zap.IncreaseLevel on the logger — instead of zapcore.NewIncreaseLevelCore: same filter, same refusal rule
+	viaOption := op.Tree.T == "incr" && op.Tree.C != nil && op.Tree.ID%2 == 1
+	var core zapcore.Core
+	if viaOption {
+		core = w.build(op.Tree.C)
+	} else {
+		core = w.build(&op.Tree)
+	}
 	buildEvs := w.rec.take()
 	opts := []zap.Option{zap.WithPanicHook(spyTerm{"panic", w.rec}), zap.WithFatalHook(spyTerm{"fatal", w.rec})}
 	if op.Dev {
 		opts = append(opts, zap.Development())
 	}
+	var optErr bytes.Buffer
+	if viaOption {
+		opts = append(opts, zap.ErrorOutput(zapcore.AddSync(&optErr)), zap.IncreaseLevel(w.enabler(op.Tree.En)))
+	}
 	lg := zap.New(core, opts...)
+	if viaOption && optErr.Len() > 0 {
+		w.rejected = append(w.rejected, op.Tree.ID) // the option refused (it would have lowered the level) and said so
+	}
 
 	rejected := map[int]bool{}
 	for _, id := range w.rejected {
@@ -381,7 +397,13 @@ func c05Exec(raw json.RawMessage) Result {
 		where := fmt.Sprintf("call %d", ci)
 		switch call.C {
 		case "set":
-			w.atomics[call.I].SetLevel(zapcore.Level(call.T))
+			// the level of an AtomicLevel that cores already use is changed either way: SetLevel, or (for the named levels) the
+			// text path that flags, config reloads and the HTTP endpoint take
+			if call.T >= -1 && call.T <= 5 && ci%2 == 1 {
+				must(w.atomics[call.I].UnmarshalText([]byte(zapcore.Level(call.T).String())))
+			} else {
+				w.atomics[call.I].SetLevel(zapcore.Level(call.T))
+			}
 			spec.atomics[call.I] = call.T
 			changed = true
 			results = append(results, map[string]any{"c": "set"})
